@@ -9,6 +9,7 @@ R19.2 binomial counts are binom_rnd_f(count, p) with the p that scaled the first
 volume; binom_rnd_f counts uniform_rv() < p over int(N+0.5) draws.
 R19.3 daughters start at the mother's time with the partitioned state and volume; parent and
 daughter links are set mutually and each schnitz is added to the lineage once.
+R19.3b the cell-state queue and the schnitz queue of a lineage simulation are filled pairwise on every path (index-aligned).
 R19.4 no phantom event: no path of the lineage loop samples an event while Lambda == 0 may hold;
 every break carries a rule/event index.
 R19.5 every volume change in the loop is followed by the non-positive test before the next row.
@@ -448,6 +449,64 @@ def check_loop(ctx):
            'events are sampled from the propensity buffer whose sum is Lambda, over all propensities', '')
 
 
+def check_parallel_queues(ctx):
+    """old_cell_states and old_schnitzes are walked as parallel lists by SimulateCellLineage (cell state i belongs to schnitz i):
+    wherever schnitzes are created, both lists must grow by the same cells in the same order on every path."""
+    for fname, scope in (('simulate_cell_list', 'loop'), ('simulate_daughter_cells', 'body')):
+        f = ctx.fn('lineage:LineageSSASimulator.%s' % fname)
+        body = f.body
+        if scope == 'loop':
+            loops = [s_ for s_ in f.body if isinstance(s_, ast.For)]
+            if len(loops) != 1:
+                raise AnalysisError('%s: cell loop not found' % fname)
+            body = loops[0].body
+        problems = []
+        n_paths = 0
+        for atl in (0, 1):
+            st = paths.State()
+            st.set('create_schnitzes', 1)
+            st.set('add_to_lineage', atl)
+            ps = paths.Enumerator().run(body, st)
+            ctx.paths += len(ps)
+            for p in ps:
+                if p.exit == 'raise':
+                    continue
+                n_paths += 1
+                seq = []
+                latest = {}
+                for e in p.stmts():
+                    n = e.node
+                    if isinstance(n, ast.Assign) and len(n.targets) == 1:
+                        latest[src(n.targets[0])] = src(n.value).replace(' ', '')
+                    for c in paths.stmt_calls(n, 'append'):
+                        lst = src(c.func.value)
+                        if lst in ('self.old_cell_states', 'self.old_schnitzes') and c.args:
+                            a = src(c.args[0])
+                            seq.append((lst, a, latest.get(a, a)))
+                cs = [x for x in seq if x[0] == 'self.old_cell_states']
+                sz = [x for x in seq if x[0] == 'self.old_schnitzes']
+                if len(cs) != len(sz):
+                    problems.append('add_to_lineage=%d: %d cell states but %d schnitzes are queued on path [%s]' % (atl, len(cs), len(sz), paths.describe(p, 6)))
+                    continue
+                # same cells, same order: the k-th queued state and the k-th queued schnitz come from the same simulation result
+                def tag(x):
+                    import re as _re
+                    d = _re.findall(r'\d', x[1])
+                    return d[-1] if d else x[2]
+                if [tag(x) for x in cs] != [tag(x) for x in sz] and scope == 'body':
+                    problems.append('add_to_lineage=%d: states %s and schnitzes %s are queued in different orders' % (atl, [x[1] for x in cs], [x[1] for x in sz]))
+        if n_paths == 0:
+            raise AnalysisError('%s: no path enumerated' % fname)
+        ctx.ob('R19.3-queues-parallel', fname, not problems, ctx.loc('lineage', f),
+               'whenever schnitzes are created, every path queues a cell state and its schnitz together (the two lists stay index-aligned)',
+               '; '.join(sorted(set(problems))[:2]))
+    f = ctx.fn('lineage:LineageSSASimulator.SimulateCellLineage')
+    txt = [util.stmt_key(s_).replace(' ', '') for s_ in ast.walk(f) if isinstance(s_, ast.stmt)]
+    ok = 'self.s=self.old_schnitzes[list_index]' in txt and 'self.cs=self.old_cell_states[list_index]' in txt
+    ctx.ob('R19.3-queues-parallel', 'SimulateCellLineage', ok, ctx.loc('lineage', f),
+           'the mother schnitz and the mother state are taken from the same queue position', '')
+
+
 OWN_SOURCES = ('v.py_get_state().copy()', 'self.interface.get_initial_state().copy()')
 
 
@@ -484,6 +543,8 @@ def check(ctx):
     check_splitter_choice(ctx)
     check_loop(ctx)
     check_own_state(ctx)
+    check_parallel_queues(ctx)
+    ctx.floor('R19.3-queues-parallel', 3)
     ctx.floor('R19.1-conservation', 3)
     ctx.floor('R19.1-volume', 3)
     ctx.floor('R19.3-links', 2)
